@@ -88,6 +88,7 @@ WORK_MODULES = [
     "pgo/test/files/general/ProcedureSpaghetti.tla.gotests", "pgo/test/files/general/bug_119.tla.gotests",
     "pgo/test/files/general/hello.tla.gotests", "pgo/test/files/general/ExprTests.tla.gotests",
     "pgo/test/files/general/bug2_124.tla.gotests",
+    "pgo/test/files/gogen/bug_167.tla.gotests", "pgo/test/files/general/PBFail4_bug125.tla.gotests",
 ]
 
 
